@@ -44,7 +44,11 @@ if PYMC_GT_516:
 
         def logp(value, a, b):
             _fac = pt.log(b) - pt.log(a)
-            res = -pt.as_tensor_variable(value) - pt.log(_fac)
+            value = pt.as_tensor_variable(value)
+            # p(x) = 1 / (x ln(b/a)) on [a, b], zero outside
+            res = pt.switch(
+                (value >= a) & (value <= b), -pt.log(value) - pt.log(_fac), -np.inf
+            )
             return check_parameters(
                 res,
                 (a > 0) & (a < b),
@@ -85,7 +89,11 @@ else:  # old behavior
 
         def logp(value, a, b):
             _fac = pt.log(b) - pt.log(a)
-            res = -pt.as_tensor_variable(value) - pt.log(_fac)
+            value = pt.as_tensor_variable(value)
+            # p(x) = 1 / (x ln(b/a)) on [a, b], zero outside
+            res = pt.switch(
+                (value >= a) & (value <= b), -pt.log(value) - pt.log(_fac), -np.inf
+            )
             return check_parameters(
                 res,
                 (a > 0) & (a < b),
